@@ -3,7 +3,7 @@
    ([rendered]); what is proved is which planes reach ImageData.set_data, that they read back, and
    when their number and size are the ones the header declares.  Every statement holds for every
    width, height, channel count, depth in {8,16,32} and all four compression methods. *)
-From PsdV Require Import Base.Prelude Pixels.Model Pixels.Corr Pixels.Proofs.
+From PsdV Require Import Base.Prelude Pixels.Model Pixels.Corr Pixels.Proofs Pixels.File Pixels.Merged Pixels.MergedDoc.
 Open Scope Z_scope.
 
 (* 1. nothing structural was edited: the image-data record is the one that was read, untouched *)
@@ -183,3 +183,60 @@ Proof.
   eexists; eexists; split; vm_compute; reflexivity.
 Qed.
 Print Assumptions reset_variant_stale_refuted.
+
+(* ---------------------------------------------------------------- on the bytes of the file *)
+(* 7. clean save through the file model (C01): a file that a well-formed document was written to, read
+   and written again with no edit in between, gives the very same bytes; the image-data record that is
+   read is the stored one and the section write_image_data emits for it is identical *)
+Theorem clean_save_preserves_file_bytes : forall enc_s dec_s pad d bs n d',
+  0 < pad -> PM.wf_psd enc_s dec_s d = true ->
+  PM.write_psd enc_s pad d = Ok (bs, n) ->
+  PM.read_psd dec_s bs = Ok d' ->
+  PM.write_psd enc_s pad d' = Ok (bs, n) /\
+  PM.p_img d' = PM.p_img d /\
+  PM.write_image_data (PM.p_img d') = PM.write_image_data (PM.p_img d).
+Proof. intros enc_s dec_s. exact (File.clean_save_file_bytes enc_s dec_s). Qed.
+Print Assumptions clean_save_preserves_file_bytes.
+
+(* 8. the dirty case tied to the compositor's result type.  [comp x y k] = (colour, shape, alpha) of
+   composite(psd, force=True) at pixel (x, y), channel k, about which ONLY the range is assumed
+   (each component in [0,1]: Properties/C11.v composite_in_range); composite_pil quantises with
+   (255 * x).astype(uint8) = integer part of 255 x.  For the documents of [unfixed_save_class] the
+   merged image save() writes reads back as exactly those quantised bands, sample by sample, all bytes.
+   Outside (oracle / C11-C13): that the code's compositor IS the modelled function, float32 versus real
+   arithmetic (also in 255*x next to an integer), NumPy/PIL moving samples unchanged. *)
+Theorem merged_image_is_quantised_composite :
+  forall comp : Z -> Z -> nat -> R * R * R,
+  (forall x y k, let '(C, f, al) := comp x y k in unitR C /\ unitR f /\ unitR al) ->
+  forall c hd old transp ti,
+  fx_save c = false -> header_ok hd -> unfixed_save_class hd ->
+  let rd := rendered_of comp hd in
+  exists st planes,
+    save c hd true old rd transp ti = Ok st /\ get_data st hd = Ok planes /\
+    planes = rd_straight rd ++ [rd_alpha rd] /\ Forall bytes planes /\
+    (forall k x y, (k < Z.to_nat (cm_channels (h_cm hd)))%nat -> 0 <= x < h_w hd -> 0 <= y < h_h hd ->
+       nth (Z.to_nat (y * h_w hd + x)) (nth k planes []) 0 = quant8 (comp_color comp x y k)) /\
+    (forall x y, 0 <= x < h_w hd -> 0 <= y < h_h hd ->
+       nth (Z.to_nat (y * h_w hd + x)) (last planes []) 0 = quant8 (comp_alpha comp x y)).
+Proof. exact Merged.merged_image_is_quantised_composite. Qed.
+Print Assumptions merged_image_is_quantised_composite.
+
+(* ... instantiated with the document compositor of C11/C13 over the reals *)
+Theorem merged_image_is_quantised_document_composite : forall vp cb ab ls c hd old transp ti,
+  Forall CPD.layer_ok ls -> CK.unit cb -> CK.unit ab ->
+  fx_save c = false -> header_ok hd -> unfixed_save_class hd ->
+  let comp := doc_comp vp cb ab ls in
+  let rd := rendered_of comp hd in
+  exists st planes,
+    save c hd true old rd transp ti = Ok st /\ get_data st hd = Ok planes /\
+    planes = rd_straight rd ++ [rd_alpha rd] /\ Forall bytes planes /\
+    (forall k x y, (k < Z.to_nat (cm_channels (h_cm hd)))%nat -> 0 <= x < h_w hd -> 0 <= y < h_h hd ->
+       nth (Z.to_nat (y * h_w hd + x)) (nth k planes []) 0 = quant8 (comp_color comp x y k)) /\
+    (forall x y, 0 <= x < h_w hd -> 0 <= y < h_h hd ->
+       nth (Z.to_nat (y * h_w hd + x)) (last planes []) 0 = quant8 (comp_alpha comp x y)).
+Proof. exact MergedDoc.merged_image_is_quantised_document_composite. Qed.
+Print Assumptions merged_image_is_quantised_document_composite.
+
+Theorem quantised_samples_are_bytes : forall x, unitR x -> byte (quant8 x).
+Proof. exact Merged.quant8_byte. Qed.
+Print Assumptions quantised_samples_are_bytes.
